@@ -91,13 +91,15 @@ theorem dec_val : ∀ (v : Value) (t : Ty) (r rest : Bytes) (fuel : Nat),
     simp only [encVal, Except.ok.injEq] at he; subst he
     have hc : Clean (if b then TRUE else FALSE) := (cleanC_encVal P.validUtf8 (.bool b) .bool _ rfl rfl rfl).clean
     simp only [decode, sectionOr_value _ _ rest hc hs, ok_bind]
-    cases b <;> simp [TRUE, FALSE]
+    cases b
+    · simp only [Bool.false_eq_true, if_false, hP.pctBool.2]; simp [TRUE, FALSE]
+    · simp only [if_true, hP.pctBool.1]; simp [TRUE, FALSE]
   | .int z, t, r, rest, fuel, hw, _, he, hs, hf => by
     obtain ⟨f, rfl⟩ : ∃ f, fuel = f + 1 := ⟨fuel - 1, by simp [sz] at hf; omega⟩
     simp only [encVal, Except.ok.injEq] at he; subst he
     cases t <;> simp only [wellTyped, Bool.false_eq_true, Bool.and_eq_true, decide_eq_true_eq] at hw
-    · simp only [decode, sectionOr_value _ _ rest (cleanC_showInt z).clean hs, ok_bind, hP.intUtf8, if_true, hP.intU _ z hw.1 hw.2, pure_eq]
-    · simp only [decode, sectionOr_value _ _ rest (cleanC_showInt z).clean hs, ok_bind, hP.intUtf8, if_true, hP.intS _ z hw.1 hw.2, pure_eq]
+    · simp only [decode, sectionOr_value _ _ rest (cleanC_showInt z).clean hs, ok_bind, hP.pctInt, hP.intUtf8, if_true, hP.intU _ z hw.1 hw.2, pure_eq]
+    · simp only [decode, sectionOr_value _ _ rest (cleanC_showInt z).clean hs, ok_bind, hP.pctInt, hP.intUtf8, if_true, hP.intS _ z hw.1 hw.2, pure_eq]
   | .char c, t, r, rest, fuel, hw, _, he, hs, hf => by
     obtain ⟨f, rfl⟩ : ∃ f, fuel = f + 1 := ⟨fuel - 1, by simp [sz] at hf; omega⟩
     simp only [encVal, Except.ok.injEq] at he; subst he
